@@ -6,6 +6,7 @@ import (
 	"sync"
 
 	"github.com/avos-io/goat/internal"
+	"github.com/avos-io/goat/internal/verifhook"
 )
 
 type demuxConn struct {
@@ -72,10 +73,14 @@ func (gsd *Demux) Run() {
 		}
 		gsd.conns.Unlock()
 
+		verifhook.Yield("demux.beforeHandoff", rpc.GetId())
 		select {
 		case conn.r <- rpc:
+			verifhook.Emit("demux.handoff", rpc.GetId(), id)
 		case <-conn.done:
+			verifhook.Emit("demux.handoff.cancelled", rpc.GetId(), id)
 		case <-gsd.ctx.Done():
+			verifhook.Emit("demux.handoff.stopped", rpc.GetId(), id)
 			return
 		}
 	}
@@ -87,6 +92,7 @@ func (gsd *Demux) Cancel(id string) {
 
 	if conn, ok := gsd.conns.value[id]; ok {
 		close(conn.done)
+		verifhook.Emit("demux.cancel", 0, id)
 	}
 
 	delete(gsd.conns.value, id)
@@ -116,6 +122,7 @@ func (gsd *Demux) newConnLocked(id string) *demuxConn {
 	}()
 
 	gsd.conns.value[id] = c
+	verifhook.Emit("demux.newconn", 0, id)
 
 	go gsd.onNewConnection(internal.NewFnReadWriter(
 		func(ctx context.Context) (*Rpc, error) {
